@@ -169,6 +169,7 @@ func c09AttackKill(c *Ctx, run *ev.Run) {
 		torn, missing, unaccounted := 0, 0, 0
 		var last c09KillObs
 		for attempt := 0; attempt < 3; attempt++ {
+			waitForPorts(run, 16000, 90*time.Second)
 			obs, err := c09KillOnce(c, dir, cs)
 			if err != nil {
 				run.Inconclusive("attack-kill case could not run: " + err.Error())
